@@ -165,6 +165,8 @@ func c09filter(c *Ctx, fn *ssa.Function, dataType string) {
 		c.R.OK(load.FuncName(fn)+": allow map = the configured filter", c.pos(store.Pos()), "membership is tested on the configured filter itself")
 		return
 	}
+	// … before it is consulted
+	c.R.Check(cfgx.InstrReaches(mset, store, nil) && !cfgx.InstrReaches(store, mset, nil), load.FuncName(fn)+": allow map complete before it is consulted", c.pos(mset.Pos()), "the allow map is filled before the details are filtered", "the allow map is filled after (or while) the details are filtered: it is still empty when consulted, and an empty filter allows every key")
 	// the allow map is filled from every element of the filter field
 	fromFilter := flow.Strict.Any(mset.Key, func(v ssa.Value) bool {
 		_, p, _ := flow.AccessPathC(v)
